@@ -22,5 +22,6 @@ def units(tier):
         H("C05", M, "check_shutdown_workers", t, [PE + "shutdown_workers", PE + "get_n_children_alive"], "0..3 workers each alive or not, Full raised 0..3 times"),
         H("C05", M, "check_join_internals", t, [PE + "join_executor_internals"], "0..3 workers each alive or not"),
         H("C05", M, "check_flag_shutting_down", t, [PE + "flag_executor_shutting_down"], "0..3 pending, 0..3 workers, kill flag symbolic"),
+        H("C05", M, "check_shutdown_call", t, ["loky.process_executor:ProcessPoolExecutor.shutdown"], "wait / kill_workers / manager started: all 8 combinations"),
         H("C05", "lokyverif.harness.c03_steps", "check_submit_step", t, ["loky.process_executor:ProcessPoolExecutor.submit"], "submit after shutdown raises ShutdownExecutorError"),
     ]
